@@ -395,6 +395,10 @@ def c13(root, combined, pieces, excl, flags, use_kw, slots):
     pieces: the expanded inclusion patterns in order; excl: exclusion patterns."""
     from wcmatch import glob as G
     viol = []
+    # `$ROOT` in a pattern stands for the absolute path of the tree root (absolute patterns mixed with relative ones)
+    sub = (lambda p: p.replace('$ROOT', root))
+    combined = sub(combined) if isinstance(combined, str) else [sub(p) for p in combined]
+    pieces = [sub(p) for p in pieces]
     kw = {'flags': flags, 'root_dir': root}
     if use_kw and excl:
         kw['exclude'] = list(excl)
@@ -429,8 +433,10 @@ def c13(root, combined, pieces, excl, flags, use_kw, slots):
     norm = (lambda x: strip_sep(x).lower()) if ci else strip_sep
     want = {norm(x) for x in expect_concat}
     got = {norm(x) for x in full}
+    show = (lambda v: [x.replace(root, '$ROOT') for x in v])
     if got != want:
-        viol.append(f'glob({combined!r}) = {sorted(got)} but union of single patterns minus exclusions = {sorted(want)}')
+        viol.append(f'glob({show(combined) if not isinstance(combined, str) else combined.replace(root, "$ROOT")!r}) = {show(sorted(got))} but union of single '
+                    f'patterns minus exclusions = {show(sorted(want))}')
     if flags & G.NOUNIQUE:
         if [strip_sep(x) for x in full] != [strip_sep(x) for x in expect_concat]:
             viol.append(f'NOUNIQUE result {full} is not the concatenation of the single results {expect_concat}')
@@ -438,7 +444,7 @@ def c13(root, combined, pieces, excl, flags, use_kw, slots):
         keys = [x.lower() if ci else x for x in full]
         if len(keys) != len(set(keys)):
             viol.append(f'duplicate paths in {full}')
-    return {'viol': viol, 'obs': sorted(full)}
+    return {'viol': viol, 'obs': sorted(x.replace(root, '$ROOT') for x in full)}
 
 
 def c13_classify(params, tree, res):
